@@ -283,6 +283,11 @@ def run(ctx):
 
     jsonlimit(ctx)
 
+    # ---- a frozen schema is safe to use whatever its shape (record cycles built with from_nodes bypass the
+    #      zero-size-cycle check): the deserializer's depth budget is decremented on every descent (shared with C04)
+    from .c04 import depth_rule
+    depth_rule(ctx)
+
     # ---- panic inventory
     used = {}
     nsites = 0
